@@ -73,7 +73,10 @@ def gen_daqmx_spec(rng, max_segments=4, max_channels=5, wide_p=0.06, wide_digita
             # a further scale on top of one floating point scaler (a strain gauge, a linear calibration): reading scaled
             # data must leave the raw scaler values what the file holds
             extra = {'kind': rng.choice(['Strain', 'Strain', 'Linear']), 'src': rng.choice(floats)}
-        chans.append({'path': p, 'kind': kind, 'scalers': scalers, 'multi': multi, 'extra': extra})
+        # the raw data index states the scaler's ordinary data type instead of DaqMxRawData (files of NI FlexLogger): the
+        # channel is then a plain array fed from its one scaler
+        plain = kind == 'format' and len(scalers) == 1 and extra is None and rng.random() < 0.15
+        chans.append({'path': p, 'kind': kind, 'scalers': scalers, 'multi': multi, 'extra': extra, 'plain': plain})
     spec = {'version': rng.choice([4712, 4713]), 'names': names, 'segments': []}
     nseg = rng.randint(1, max_segments)
     endian_mode = rng.choice(['<', '<', '>', 'mixed'])
@@ -119,7 +122,9 @@ def gen_daqmx_spec(rng, max_segments=4, max_channels=5, wide_p=0.06, wide_digita
                     stated.add(c['path'])
                     L.update({'index': 'full', 'type': 'daqmx', 'count': cnt,
                               'daqmx': {'kind': c['kind'], 'scalers': scalers, 'widths': list(widths)}})
-                    if k == 0 or rng.random() < 0.3:
+                    if c.get('plain'):
+                        L['daqmx']['plain'] = True
+                    if (k == 0 or rng.random() < 0.3) and not c.get('plain'):
                         nscales = max(s['id'] for s in c['scalers']) + 1
                         L['props'] = [['NI_Number_Of_Scales', 'u32', nscales], ['NI_Scaling_Status', 'str', 'unscaled']]
                         if c.get('extra'):
@@ -370,7 +375,10 @@ def execute(case):
         # lazy windows = slices of the model
         for i, op in enumerate(case['ops']):
             full = fulls.get(op['ch'])
-            if op['op'] != 'read_data':
+            if w.chans[op['ch']].type != 'daqmx' and w.chans[op['ch']].type is not None:
+                full = _lazy.model_full(w.chans[op['ch']], True)      # a DAQmx channel with an ordinary data type
+                res.probe('daqmx-plain-typed-channel')
+            elif op['op'] != 'read_data':
                 full = _lazy.op_full(w, w.chans[op['ch']], op, False)
                 if full is not None:
                     res.probe('scaled-index-or-slice')
